@@ -34,6 +34,9 @@ type Spec struct {
 	HBCache bool
 	MaxExec int
 	Shards  int
+	// Batch, when set, replaces Sc: many scenarios explored on their default schedule only, in one job
+	Batch []sched.Scenario
+	Name  string
 	// RaceBound is the preemption bound used when the race detector monitors the scenario (it costs ~8x per execution)
 	RaceBound int
 	// RaceOnly: explored only by the race-monitor binary; NoRace: skipped by it (too slow / not about races)
@@ -203,13 +206,44 @@ func RunJob(id, tier string, specIdx, shard, shards, slot int, raceLog, out stri
 	}
 	name := sp.Sc.Name
 	var notes []string
-	st := sched.Explore(sp.Sc, opt, func(cs sched.Case, f sched.Finding) {
-		if strings.HasPrefix(f.Key, "harness:") {
-			notes = append(notes, name+": "+f.What)
-			return
+	var st sched.Stats
+	if sp.Batch != nil {
+		name = sp.Name
+		st = sched.Stats{Outcomes: map[string]int{}, Exhaustive: true, Mode: "default-schedule x batch"}
+		opt.DefaultOnly = true
+		opt.Shard, opt.Shards = 0, 1
+		for i, sc := range sp.Batch {
+			if i%shards != shard {
+				continue
+			}
+			if opt.Deadline.Expired() {
+				st.Exhaustive = false
+				break
+			}
+			scName := sc.Name
+			one := sched.Explore(sc, opt, func(cs sched.Case, f sched.Finding) {
+				p.Violate(name, id+":"+f.Key, fmt.Sprintf("scenario %s, schedule %v: %s", scName, cs.Schedule, f.What), cs)
+			})
+			st.Executions += one.Executions
+			st.Deadlocks += one.Deadlocks
+			st.RaceReports += one.RaceReports
+			if one.MaxPoints > st.MaxPoints {
+				st.MaxPoints = one.MaxPoints
+			}
+			for o := range one.Outcomes {
+				st.Outcomes[classifyOutcome(o)]++
+			}
 		}
-		p.Violate(name, id+":"+f.Key, fmt.Sprintf("scenario %s, schedule %v: %s", name, cs.Schedule, f.What), cs)
-	})
+	} else {
+		st = sched.Explore(sp.Sc, opt, func(cs sched.Case, f sched.Finding) {
+			if strings.HasPrefix(f.Key, "harness:") {
+				notes = append(notes, name+": "+f.What)
+				return
+			}
+			p.Violate(name, id+":"+f.Key, fmt.Sprintf("scenario %s, schedule %v: %s", name, cs.Schedule, f.What), cs)
+		})
+	}
+	st.First = nil
 	res := jobResult{Scenario: name, Shard: shard, Stats: st, Violations: p.Violations, Notes: notes}
 	b, _ := json.Marshal(res)
 	if err := os.WriteFile(out, b, 0o644); err != nil {
@@ -265,7 +299,7 @@ func RunCheck(p *run.Part, id, tier string, raceLog string, journalDir string) {
 			}
 			outb, err := cmd.CombinedOutput()
 			if err != nil {
-				died[k] = fmt.Sprintf("job %s shard %d: %v\n%s", specs[jb.spec].Sc.Name, jb.shard, err, tail(string(outb), 6000))
+				died[k] = fmt.Sprintf("job %s%s shard %d: %v\n%s", specs[jb.spec].Sc.Name, specs[jb.spec].Name, jb.shard, err, tail(string(outb), 6000))
 			}
 		}(k, jb)
 	}
@@ -351,6 +385,14 @@ func RunCheck(p *run.Part, id, tier string, raceLog string, journalDir string) {
 	p.SetExtra("scenarios", rows)
 }
 
+// classifyOutcome shortens batch outcomes to their size class so that evidence stays small.
+func classifyOutcome(o string) string {
+	if i := strings.Index(o, " "); i > 0 {
+		return o[:i]
+	}
+	return o
+}
+
 func journalDirOr(d string) string {
 	if d == "" {
 		return filepath.Join(os.TempDir(), "x")
@@ -374,6 +416,11 @@ func ReplayCase(p *run.Part, id string, raw []byte, raceLog string) string {
 	world.Init()
 	for _, tier := range []string{"quick", "thorough"} {
 		for _, sp := range Registry[id].Scenarios(tier) {
+			for _, b := range sp.Batch {
+				if b.Name == cs.Scenario {
+					sp.Sc = b
+				}
+			}
 			if sp.Sc.Name == cs.Scenario {
 				res, outcome, fs := sched.Replay(sp.Sc, cs.Schedule, raceLog)
 				for _, f := range fs {
